@@ -33,7 +33,7 @@ ENTRIES = ['body', '_body', 'POST', 'forms', 'files', 'json', '_get_body_string'
 
 
 def check(P, R):
-    R.rule('C12.a', 'only client errors escape the body accessors', floor=10)
+    R.rule('C12.a', 'only client errors escape the body accessors', floor=3)
     R.rule('C12.b', 'readers raise RequestErrors; _body converts them', floor=10)
     R.rule('C12.c', 'delivered text fields are whole parts', floor=6)
     R.rule('C12.d', 'hand-written scanners make progress', floor=4)
